@@ -579,8 +579,9 @@ def t_exc(rng: random.Random, u: str, hostile: bool = False) -> Unit:
                 "        out += 'I:' + str(e)", "    finally:", "        out += 'f2'", "    return out", ""]
         calls += [{"setup": [], "call": f"{u}_f({a}, {b}, [1, 2, 3])", "post": []} for a, b in ((4, 2), (1, 0), (9, 1), (0, 0), (-1, -7), (2 ** 64, 1))]
     elif variant == "finally-return":
+        # (break/continue out of try..finally is an explicit "unimplemented" error of mypyc: only return is used)
         src += [f"def {u}_f(n: int, xs: list[int]) -> int:", "    for i in range(3):", "        try:", "            if n == i:", "                return xs[i]", "            if n == 10 + i:",
-                "                continue", "            if n == 20 + i:", "                break", "            xs.append(i)", "        finally:", "            xs.append(-i)", "    return len(xs)", ""]
+                "                raise KeyError(i)", "            xs.append(i)", "        except KeyError:", "            xs.append(100 + i)", "        finally:", "            xs.append(-i)", "    return len(xs)", ""]
         calls += [{"setup": [f"xs = {val('list[int]', rng)}"], "call": f"{u}_f({k}, xs)", "post": ["xs"]} for k in (0, 1, 2, 10, 11, 21, 22, 5)]
     elif variant == "cause":
         src += [f"def {u}_f(n: int) -> str:", "    try:", "        try:", "            return str(1 // n)", "        except ZeroDivisionError as e:", "            if n == 0:",
